@@ -11,17 +11,26 @@ GEN = ("SPECIFICATION GSpec\nCONSTANTS\n  Cap = %d\n  Ids = {\"a\", \"b\", \"c\"
 TRACE_CFG = "SPECIFICATION TSpec\nCONSTRAINT HWM\nPOSTCONDITION Accepted\nINVARIANT CapHolds\n"
 
 
+def _ph(ctx, name):
+    """sub-phases mqtt-mc / mqtt-mbt / mqtt-tv; VERIF_PHASES=mqtt (the switch props/c17.py uses) selects all of them"""
+    import os
+    sel = (os.environ.get("VERIF_PHASES") or "").split(",")
+    if sel == [""] or name in sel:
+        return True
+    return "mqtt" in sel and not any(x.startswith("mqtt-") for x in sel)
+
+
 def run_mqtt(ctx):
     ctx.assumptions += ["MQTT cap: clients use cleanSession=false (a clean session's teardown triggers the C16 finding and would entangle "
                         "the properties); 'connected clients' = entries of Broker.clients, sampled under Broker.Lock, and the slots the "
                         "contract holds between CONNACK(accepted) and the end of the broker's teardown of that connection"]
-    if ctx.phase("mqtt-mc"):
+    if _ph(ctx, "mqtt-mc"):
         for cap, conns, idof in ((1, "MCConns", "MCId2"), (2, "MCConns5", "MCId5")) if ctx.quick else ((1, "MCConns5", "MCId5"), (2, "MCConns5", "MCId5"), (3, "MCConns5", "MCId5")):
             r = ctx.tlc_mc("MqttConnCap", MC % (cap, conns, idof), label="MQTT cap %d, early check + locked register + remove, all interleavings" % cap, timeout=600)
             ctx.log("MQTT connection-cap model (cap %d): %d distinct states" % (cap, r.distinct))
-    if ctx.phase("mqtt-mbt"):
+    if _ph(ctx, "mqtt-mbt"):
         _mbt(ctx)
-    if ctx.phase("mqtt-tv"):
+    if _ph(ctx, "mqtt-tv"):
         _tv(ctx)
 
 
